@@ -87,7 +87,7 @@ def mk_item(prop, mname, bs, rate, nb, tier, opts):
     for k in ('fault', 'fault2', 'backend', 'executor_order', 'fault_in_open', 'preload', 'truncate'):
         if k in opts:
             desc += '|%s=%s' % (k, opts[k])
-    it = Item(desc, lambda: readers.item_fn(mname, bs, rate, nb, 'in', opts), timeout_s=150 if tier == 'quick' else 900,
+    it = Item(desc, lambda: readers.item_fn(mname, bs, rate, nb, 'in', opts), timeout_s=150 if tier == 'quick' else 400,
               solver_ms=10000 if tier == 'quick' else 60000)
     it.meta = dict(method=mname, bs=list(bs), rate=rate, nb=list(nb), opts=opts, prop=prop)
     return it
